@@ -8,6 +8,7 @@
 From Dino Require Import Base.Ops Base.Sums Base.Ord Base.Inst Model.Filters Model.Sigma
      Gen.DerivExprs Gen.Tableaux Model.Deriv Model.Invariants Thm.Invariants.
 From Dino Require Model.Integrators.
+From Dino Require Import Model.ShallowWater Thm.ShallowWater.
 From Coq Require Import Reals Qcanon.
 Local Open Scope F_scope.
 Notation iter := Dino.Model.Invariants.iter.
@@ -366,6 +367,48 @@ Proof.
   exact (fix_time_trajectory QcZMorph _ dt 1 rnd_qc_nearest Hdt Hlo Hhi Fx G Ginv _ fs n0 k u Hc Hu).
 Qed.
 
+
+(** ** the shallow-water explicit terms as modelled in Model/ShallowWater.v (the concrete assembly of
+    ShallowWaterEquations.explicit_terms: all layers, density ratios, orography; proofs in Thm/ShallowWater.v) *)
+Section C11_shallow_water.
+  Context {F : Type} {o : Ops F} {Fc : FieldC o}.
+  Variables (fast : bool) (M R L I J N : nat) (f : nat -> nat -> F) (p : nat -> nat -> nat -> F) (wq : nat -> F)
+            (rad : F) (wa wb : @arr2 F) (dens : nat -> F).
+  Let toM := sw_toM R L I J f p wq.
+  Let divc := sw_divc fast R L rad wa wb.
+  Let curlc := sw_curlc fast R L rad wa wb.
+  Let lap := sw_lap (F := F) L rad.
+  Let clp := sw_clip (F := F) L.
+
+  (** global means: the (0,0) coefficients of the vorticity, divergence and potential (layer thickness) tendencies of
+      every layer vanish for ANY nodal columns, potentials, orography, densities and ANY tables *)
+  Theorem C11_sw_mean_tendencies_vanish (X : Wn -> SWCol) (pot : nat -> Wn -> F) (orog : option (Wn -> F)) r :
+    rad <> 0 -> (2 <= L)%nat -> (0 < R)%nat ->
+    sw_vort_explicit Wn Wn toM divc clp X r (0%nat, 0%nat) = 0 /\
+    sw_div_explicit Wn Wn toM curlc lap clp N dens X pot orog r (0%nat, 0%nat) = 0 /\
+    sw_pot_explicit Wn Wn toM divc clp X r (0%nat, 0%nat) = 0.
+  Proof. intros; eapply sw_mean_tendencies_vanish; eassumption. Qed.
+
+  (** the clipped top total wavenumber: unconditional *)
+  Theorem C11_sw_explicit_top_zero (X : Wn -> SWCol) (pot : nat -> Wn -> F) (orog : option (Wn -> F)) r a l :
+    (L - 1 <= l)%nat ->
+    sw_vort_explicit Wn Wn toM divc clp X r (a, l) = 0 /\
+    sw_div_explicit Wn Wn toM curlc lap clp N dens X pot orog r (a, l) = 0 /\
+    sw_pot_explicit Wn Wn toM divc clp X r (a, l) = 0.
+  Proof. intros; eapply sw_explicit_top_zero; eassumption. Qed.
+
+  (** the whole support pattern (triangular mask and top wavenumber), under the named hypotheses sw_H_p_support
+      (basis functions f * p zero outside the mask) and sw_H_deriv_mask (div / curl keep the mask), for modal inputs
+      (potentials, orography) in the pattern *)
+  Theorem C11_sw_explicit_into_Supp (X : Wn -> SWCol) (pot : nat -> Wn -> F) (orog : option (Wn -> F)) :
+    sw_H_p_support fast M R L I J f p -> sw_H_deriv_mask fast M R L rad wa wb ->
+    (forall b, (b < N)%nat -> sw_masked fast M R L (pot b)) -> (forall h, orog = Some h -> sw_masked fast M R L h) ->
+    Supp fast M L R L (fun k i l => sw_vort_explicit Wn Wn toM divc clp X k (i, l)) /\
+    Supp fast M L R L (fun k i l => sw_div_explicit Wn Wn toM curlc lap clp N dens X pot orog k (i, l)) /\
+    Supp fast M L R L (fun k i l => sw_pot_explicit Wn Wn toM divc clp X k (i, l)).
+  Proof. intros; eapply sw_explicit_into_Supp; eassumption. Qed.
+End C11_shallow_water.
+
 Print Assumptions C11_term_preserves_subspace.
 Print Assumptions C11_trajectory_in_subspace.
 Print Assumptions C11_leapfrog_trajectory_in_subspace.
@@ -391,3 +434,6 @@ Print Assumptions C11_sim_time_advances_R.
 Print Assumptions C11_hyps_satisfiable.
 Print Assumptions C11_fix_time_trajectory.
 Print Assumptions C11_fix_time_round_half_even.
+Print Assumptions C11_sw_mean_tendencies_vanish.
+Print Assumptions C11_sw_explicit_top_zero.
+Print Assumptions C11_sw_explicit_into_Supp.
